@@ -3,6 +3,11 @@ package props
 import (
 	"bytes"
 	"fmt"
+	"os"
+	"os/exec"
+	"runtime"
+	"sync"
+	"sync/atomic"
 	"testing"
 	"unsafe"
 
@@ -144,4 +149,122 @@ func TestC20_Small(t *testing.T) {
 	rec.Merge(b)
 	rec.Sample(ConvCase{Parent: 24, I: 3, J: 9, K: 17})
 	rec.SetExhaustive()
+}
+
+// TestC20_BigCaps: short sub-slices of very large buffers, converted several times in a row.
+func TestC20_BigCaps(t *testing.T) {
+	rec := evid.New("C20", "c20_bigcaps", "enumeration: sub-slices of length {0,1,2,8,9,16,17,4096} at offsets {0,1,cap-len} of buffers with capacity {2^k-1, 2^k, 2^k+1 : k = 15..21} (with and without spare capacity), each converted 6 times in a row by BinaryToString and its string by StringToBinary; sharing, length, content and cap == len are checked on every call; distinct by construction")
+	defer rec.Flush()
+	b := evid.NewBatch()
+	for k := 15; k <= 21; k++ {
+		for _, d := range []int{-1, 0, 1} {
+			capN := 1<<k + d
+			parent := make([]byte, capN)
+			for i := range parent {
+				parent[i] = byte(i*7 + 3)
+			}
+			ps := string(parent)
+			for _, l := range []int{0, 1, 2, 8, 9, 16, 17, 4096} {
+				for _, off := range []int{0, 1, capN - l} {
+					for _, spare := range []bool{true, false} {
+						sub := parent[off : off+l]
+						if !spare {
+							sub = parent[off : off+l : off+l]
+						}
+						for rep := 0; rep < 6; rep++ {
+							s := unsafex.BinaryToString(sub)
+							if len(s) != l || s != string(sub) || (l > 0 && unsafe.StringData(s) != &sub[0]) {
+								c := ConvCase{Parent: capN, I: off, J: off + l, K: capN}
+								failEnum(t, rec, "c20_conv", c, evid.Failf("BinaryToString (call %d in a row) on a %d-byte sub-slice at offset %d of a buffer with capacity %d (spare capacity %v): does not share memory / wrong content", rep+1, l, off, capN, spare))
+								rec.Merge(b)
+								return
+							}
+							ss := ps[off : off+l]
+							bb := unsafex.StringToBinary(ss)
+							if len(bb) != l || cap(bb) != l || !bytes.Equal(bb, []byte(ss)) || (l > 0 && &bb[0] != unsafe.StringData(ss)) {
+								c := ConvCase{Parent: capN, I: off, J: off + l, K: capN}
+								failEnum(t, rec, "c20_conv", c, evid.Failf("StringToBinary (call %d in a row) on a %d-byte substring at offset %d of a %d-byte string: len %d cap %d", rep+1, l, off, capN, len(bb), cap(bb)))
+								rec.Merge(b)
+								return
+							}
+							b.Evals++
+						}
+						b.Distinct++
+						b.Nontrivial++
+					}
+				}
+			}
+		}
+	}
+	rec.Merge(b)
+	rec.Sample(map[string]interface{}{"cap": 1 << 20, "len": 1, "offset": 0, "calls_in_a_row": 6})
+	rec.SetExhaustive()
+}
+
+// TestC20_FirstUse: the very first conversions of a process, made by many goroutines at once (lazy
+// process-wide initialisation must not be observable). The test binary re-executes itself.
+func TestC20_FirstUse(t *testing.T) {
+	if os.Getenv("VERIF_C20_CHILD") == "1" {
+		c20FirstUseChild()
+		return
+	}
+	rec := evid.New("C20", "c20_firstuse", "fresh processes (the test binary re-executed), each starting 8 goroutines that perform the process's first conversions simultaneously behind a spin barrier and check sharing, length, content and cap == len; every child process is one evaluation; non-trivial = always (a fresh process)")
+	defer rec.Flush()
+	n := evid.Pick(60, 300)
+	b := evid.NewBatch()
+	for i := 0; i < n; i++ {
+		cmd := exec.Command(os.Args[0], "-test.run", "^TestC20_FirstUse$")
+		cmd.Env = append(os.Environ(), "VERIF_C20_CHILD=1", "VERIF_OUT=")
+		out, err := cmd.CombinedOutput()
+		b.Evals++
+		b.Distinct++
+		b.Nontrivial++
+		if err != nil || bytes.Contains(out, []byte("C20-FIRST-USE-FAILED")) {
+			msg := string(out)
+			if len(msg) > 600 {
+				msg = msg[:600]
+			}
+			failEnum(t, rec, "c20_conv", ConvCase{Parent: 12, I: 0, J: 12, K: 12}, evid.Failf("first conversions of a fresh process made by 8 goroutines at once (child %d): %s", i, msg))
+			break
+		}
+	}
+	rec.Merge(b)
+	rec.Sample(map[string]interface{}{"child_processes": n, "goroutines_per_child": 8})
+}
+
+func c20FirstUseChild() {
+	const g = 8
+	runtime.GOMAXPROCS(16)
+	var ready int32
+	var wg sync.WaitGroup
+	start := make(chan struct{})
+	fails := make(chan string, g)
+	for i := 0; i < g; i++ {
+		wg.Add(1)
+		go func(i int) {
+			defer wg.Done()
+			buf := []byte("hello, first use")[:12:16]
+			str := "a string literal of some length"[2:14]
+			<-start
+			// spin barrier: all goroutines leave it within a few nanoseconds of each other
+			atomic.AddInt32(&ready, 1)
+			for atomic.LoadInt32(&ready) < g {
+			}
+			s := unsafex.BinaryToString(buf)
+			bb := unsafex.StringToBinary(str)
+			if len(s) != 12 || s != "hello, first" || unsafe.StringData(s) != &buf[0] {
+				fails <- "BinaryToString did not share memory / wrong content"
+			}
+			if len(bb) != 12 || cap(bb) != 12 || &bb[0] != unsafe.StringData(str) || string(bb) != str {
+				fails <- fmt.Sprintf("StringToBinary: len %d cap %d shared %v", len(bb), cap(bb), &bb[0] == unsafe.StringData(str))
+			}
+		}(i)
+	}
+	close(start)
+	wg.Wait()
+	close(fails)
+	for f := range fails {
+		fmt.Println("C20-FIRST-USE-FAILED:", f)
+		os.Exit(3)
+	}
 }
